@@ -53,6 +53,7 @@ ASSUME = [
 ]
 RULE = ("quick 700 / thorough 10000 cases.  seeded generation: histories of 1-6 revisions (linear, branched, merges, several bases, depends_on), upgrade ranges "
         "start:end (start = base or a revision, end = revision/head(s)/+N) and downgrade ranges from:to (to = base, ancestor, -N), "
+        "the start spelled as full id / unique 4-character prefix / branch label / `head` (single-head histories) / base, "
         "each under one point of the lattice transactional_ddl {default, True, False} x transaction_per_migration {False, True} "
         "configured in env.py for BOTH the online run and the offline script (replayed on an autocommit sqlite3 connection, so the "
         "script's own BEGIN / COMMIT frame it); "
@@ -438,7 +439,8 @@ def gen_history(rnd, tier, tabs=False, invalid=False, violate=False):
         for o in own:
             if o[2]:
                 dn.append(["dt", o[0]])
-        revs.append({"id": k, "down": down, "deps": deps, "up": up, "dn": dn})
+        labels = ["lbl%d_x" % k] if rnd.random() < 0.35 else []
+        revs.append({"id": k, "down": down, "deps": deps, "up": up, "dn": dn, "labels": labels})
     # command and range
     ids = list(range(n))
     if rnd.random() < 0.6:
@@ -522,9 +524,20 @@ def gen_history(rnd, tier, tabs=False, invalid=False, violate=False):
                                  0x202f, 0x205f, 0x3000, 0x200b, 0x180e, 0xfeff, 8, 14, 27, 33, 0x84, 0x86, 0x9f, 0xa1,
                                  0x2010, 0x200c, 0x3001)] + list("aB'(),=x1") + ["\u00e9"]
     raw = "".join(rnd.choice(raw_pool) for _ in range(rnd.randint(0, 14)))
+    # how the start of the --sql range is spelled: every spelling get_current_heads accepts offline
+    if start is None:
+        start_sp = {"kind": "base", "text": "base"}
+    else:
+        heads = [r["id"] for r in revs if not any(r["id"] in c["down"] for c in revs)]
+        opts = [{"kind": "id", "text": rname(start)}, {"kind": "prefix", "text": rname(start)[:4]}]
+        if revs[start]["labels"]:
+            opts += [{"kind": "label", "text": revs[start]["labels"][0]}] * 2
+        if heads == [start]:
+            opts += [{"kind": "head", "text": "head"}] * 2
+        start_sp = rnd.choice(opts)
     # the configuration lattice of the migration context, the same for the online run and the offline script
     cfg = {"tddl": rnd.choice([None, None, True, True, True, False]), "tpm": rnd.random() < 0.4}
-    return {"revs": revs, "cmd": cmd, "start": start, "end": end, "raw": raw, "tabs": bool(tabs), "cfg": cfg}
+    return {"revs": revs, "cmd": cmd, "start": start, "end": end, "raw": raw, "tabs": bool(tabs), "cfg": cfg, "start_sp": start_sp}
 
 
 def _registered(fid):
@@ -642,8 +655,12 @@ def iname(i):
     return "ix%d" % i
 
 
+# revision ids: long enough for abbreviated lookups (a unique prefix of >= 4 characters), two of them sharing 3 characters
+NAMES = ["a1b2c3", "a1b9d4", "b7c8d9", "c0ffee1", "d00d42", "e5e5e5"]
+
+
 def rname(r):
-    return "r%d" % r
+    return NAMES[r]
 
 
 def col_src(c):
@@ -698,8 +715,9 @@ def write_scripts(d, revs):
         deps = tuple(rname(x) for x in r["deps"]) or None
         body = lambda ops: "\n".join("    " + op_src(o) for o in ops) or "    pass"
         src = ("# -*- coding: utf-8 -*-\nimport datetime, decimal\nfrom alembic import op\nimport sqlalchemy as sa\n"
-               "revision = %r\ndown_revision = %r\ndepends_on = %r\nbranch_labels = None\n\n"
-               "def upgrade():\n%s\n\ndef downgrade():\n%s\n" % (rname(r["id"]), down, deps, body(r["up"]), body(r["dn"])))
+               "revision = %r\ndown_revision = %r\ndepends_on = %r\nbranch_labels = %r\n\n"
+               "def upgrade():\n%s\n\ndef downgrade():\n%s\n" % (rname(r["id"]), down, deps, tuple(r.get("labels") or ()) or None,
+                                                                  body(r["up"]), body(r["dn"])))
         open(os.path.join(d, "versions", "%s.py" % rname(r["id"])), "w", encoding="utf-8").write(src)
 
 
@@ -741,7 +759,7 @@ def read_db(path):
 
 
 def rid(s):
-    return int(s[1:])
+    return NAMES.index(s)
 
 
 def canon_obs(o):
@@ -885,6 +903,9 @@ def normalise(h):
     create_table without constraint list, create_index without unique flag, bulk_insert without multiinsert flag"""
     h = json.loads(json.dumps(h))
     h.setdefault("cfg", {"tddl": None, "tpm": False})
+    h.setdefault("start_sp", {"kind": "base", "text": "base"} if h["start"] is None else {"kind": "id", "text": rname(h["start"])})
+    for r in h["revs"]:
+        r.setdefault("labels", [])
 
     def col(c):
         c = list(c)
@@ -975,7 +996,7 @@ def run_case(h):
         buf = io.StringIO()
         nstmts = 0
         try:
-            fn(cfg_for("nonexistent.db", buf), "%s:%s" % (startname, endname), sql=True)
+            fn(cfg_for("nonexistent.db", buf), "%s:%s" % (h["start_sp"]["text"], endname), sql=True)
             stmts = split_script(buf.getvalue())
             nstmts = len(stmts)
             con = sqlite3.connect(os.path.join(d, "off.db"), isolation_level=None)
@@ -1011,14 +1032,19 @@ def run_case(h):
                                        "None" if vers is None else "Some %s" % cf.nlist(rid(v) for v in vers))
         cfg_term = "(mkCfg %s %s)" % ({None: "None", True: "(Some true)", False: "(Some false)"}[h["cfg"]["tddl"]],
                                        cf.boolean(h["cfg"]["tpm"]))
-        cin = "mkIn %s %s %s %s %s" % (db_term, cf.nlist([start] if start is not None else []), steps_term, cf.string(h["raw"]),
-                                       cfg_term)
+        sp = h["start_sp"]
+        spell_term = {"base": "SpBase", "head": "SpHead"}.get(sp["kind"]) or \
+            "(%s %s)" % ("SpPrefix" if sp["kind"] == "prefix" else "SpKey", cf.string(sp["text"]))
+        heads_now = [r["id"] for r in h["revs"] if not any(r["id"] in c["down"] for c in h["revs"])]
+        map_term = cf.lst("mkR %d %s %s %s" % (r["id"], cf.string(rname(r["id"])), cf.lst(cf.string(l) for l in r["labels"]),
+                                               cf.boolean(r["id"] in heads_now)) for r in h["revs"])
+        cin = "mkIn %s %s %s %s %s %s" % (db_term, spell_term, map_term, steps_term, cf.string(h["raw"]), cfg_term)
         cout = "mkOut %s %s %s" % (coq_obs(con_, on_err is None), coq_obs(coff_, off_err is None), cf.string(posted))
         nsteps = len(plan.steps) if plan else 0
         branched = any(len(r["down"]) > 1 or r["deps"] for r in h["revs"]) or \
             len([r for r in h["revs"] if not r["down"]]) > 1 or \
             any(len([c for c in h["revs"] if r["id"] in c["down"]]) > 1 for r in h["revs"])
-        shape = "%s-%s-%s%s-%s" % (cmd, "branched" if branched else "linear",
+        shape = "%s-%s-%s-%s%s-%s" % (cmd, h["start_sp"]["kind"], "branched" if branched else "linear",
                                    "err" if (on_err or off_err) else ("empty" if nsteps == 0 else "ok"),
                                    "-tabs" if h.get("tabs") else "",
                                    {None: "ddlD", True: "ddlT", False: "ddlF"}[h["cfg"]["tddl"]] + ("-pm" if h["cfg"]["tpm"] else ""))
